@@ -3,6 +3,7 @@ package main
 // Verifying one function against its contract; discharging obligations.
 
 import (
+	"context"
 	"fmt"
 	"go/token"
 	"go/types"
@@ -153,6 +154,9 @@ func (o *Obligation) queryWith(slice bool) string {
 	b.WriteString("; obligation " + o.Name + "\n")
 	b.WriteString(c.preamble())
 	final := and(o.guard, not(o.goal))
+	if o.coverOnly {
+		final = o.guard // reachability of the obligation point under all assumptions
+	}
 	var keep []bool
 	if slice {
 		keep = c.relevant(o.nAssert, append([]string{final}, o.extra...))
@@ -168,6 +172,30 @@ func (o *Obligation) queryWith(slice bool) string {
 		}
 		for i := 0; i < o.nAssert && i < len(c.assertBlk); i++ {
 			if blk := c.assertBlk[i]; blk >= 0 && blk < len(c.reach) && !c.reach[blk][o.block] {
+				keep[i] = false
+			}
+		}
+	}
+	// uses(...): keep only the named callee postconditions (and everything untagged)
+	if o.uses != nil {
+		for i := 0; i < o.nAssert && i < len(c.assertTag); i++ {
+			tg := c.assertTag[i]
+			if tg == "" {
+				continue
+			}
+			hit := false
+			for _, t := range strings.Split(tg, ",") {
+				if o.uses[t] {
+					hit = true
+				}
+			}
+			if !hit {
+				if keep == nil {
+					keep = make([]bool, o.nAssert)
+					for j := range keep {
+						keep[j] = true
+					}
+				}
 				keep[i] = false
 			}
 		}
@@ -354,6 +382,57 @@ func analyseAssert(a string) assertInfo {
 	return in
 }
 
+// coverCheck: for obligations at the end of a path, is the path reachable under
+// all recorded assumptions?  An unreachable end of path makes its obligations
+// hold vacuously; they are listed in the evidence (a return that really is
+// unreachable is legitimate, a reachable one reported here is an engine or
+// contract bug).
+func (v *Verifier) coverCheck(obls []*Obligation, dir string, jobs int) []string {
+	var mu sync.Mutex
+	var out []string
+	var wg sync.WaitGroup
+	sem := make(chan struct{}, jobs)
+	seen := map[string]bool{}
+	for i, o := range obls {
+		switch o.Kind {
+		case "ensures", "back-when", "exit-when":
+		default:
+			continue
+		}
+		if o.ctx == nil || o.guard == "true" {
+			continue
+		}
+		key := o.Func + "|" + o.guard
+		if seen[key] {
+			continue
+		}
+		seen[key] = true
+		wg.Add(1)
+		sem <- struct{}{}
+		go func(i int, o *Obligation) {
+			defer wg.Done()
+			defer func() { <-sem }()
+			c2 := *o
+			c2.coverOnly = true
+			name := fmt.Sprintf("cover%04d", i)
+			file := filepath.Join(dir, name+".smt2")
+			os.WriteFile(file, []byte(c2.query()), 0o644)
+			ctx, cancel := context.WithCancel(context.Background())
+			defer cancel()
+			res := runOne(ctx, solvers[0], file, 5)
+			os.Remove(file)
+			if res.Status == "unsat" {
+				mu.Lock()
+				out = append(out, o.Name+" at "+o.Pos)
+				mu.Unlock()
+			}
+		}(i, o)
+	}
+	wg.Wait()
+	sort.Strings(out)
+	return out
+}
+
 func (v *Verifier) discharge(obls []*Obligation, dir string, timeoutS int, thorough bool, jobs int) {
 	os.MkdirAll(dir, 0o755)
 	names := make([]string, len(obls))
@@ -445,7 +524,12 @@ func (v *Verifier) discharge(obls []*Obligation, dir string, timeoutS int, thoro
 func (v *Verifier) incremental(obls []*Obligation, todo []int, jobs int, names []string, dir string) []int {
 	groups := map[*Ctx][]int{}
 	var order []*Ctx
+	var standalone []int
 	for _, i := range todo {
+		if obls[i].uses != nil {
+			standalone = append(standalone, i) // needs its own, filtered query
+			continue
+		}
 		c := obls[i].ctx
 		if _, ok := groups[c]; !ok {
 			order = append(order, c)
@@ -456,6 +540,7 @@ func (v *Verifier) incremental(obls []*Obligation, todo []int, jobs int, names [
 	sem := make(chan struct{}, jobs)
 	var mu sync.Mutex
 	var left []int
+	left = append(left, standalone...)
 	// split large groups into chunks so that one big function does not serialise the run
 	type chunk struct {
 		c   *Ctx
